@@ -11,6 +11,11 @@ import Mathlib.Tactic.Positivity
 import Mathlib.Tactic.NormNum
 import Mathlib.Analysis.SpecialFunctions.Trigonometric.Basic
 import Mathlib.Analysis.SpecialFunctions.Trigonometric.Deriv
+import Mathlib.Topology.Order.IntermediateValue
+import Mathlib.Analysis.Calculus.Deriv.MeanValue
+import Mathlib.Analysis.Calculus.Deriv.Inv
+import Mathlib.Analysis.SpecialFunctions.Trigonometric.DerivHyp
+import Mathlib.Topology.Algebra.Polynomial
 
 namespace Verif.C12
 open Verif
@@ -404,6 +409,26 @@ theorem val_eq_spec (S : Solver α) (env : String → α) (m : M α) (x : α) :
     funext f
     exact ih f
 
+/-- the same for the parameter validation (`ValueError` guards): index routing = lookup by name -/
+theorem check_eq_spec (env : String → α) (m : M α) :
+    m.check (m.params.map env) = m.checkSpec env := by
+  induction m with
+  | base k n => rfl
+  | add l r ihl ihr =>
+    simp only [M.check, M.checkSpec]
+    rw [route_map env _ l.params (fun p hp => by
+          simp only [M.params]; exact mem_dedup.mpr (List.mem_append_left _ hp)),
+        route_map env _ r.params (fun p hp => by
+          simp only [M.params]; exact mem_dedup.mpr (List.mem_append_right _ hp)),
+        ihl, ihr]
+  | off m ih =>
+    simp only [M.check, M.checkSpec]
+    rw [route_map env _ m.params (fun p hp => by
+          simp only [M.params]; exact mem_dedup.mpr (List.mem_cons_of_mem _ hp)), ih]
+  | inv m lo hi interp ih =>
+    simp only [M.check, M.checkSpec, M.params]
+    rw [ih]
+
 end routing
 
 
@@ -605,6 +630,657 @@ theorem trig_root_order_aux (p q : ℝ) (hdet : q ^ 2 / 4 + p ^ 3 / 27 < 0) (r :
     have hd : (r - t2) * (r ^ 2 + r * t2 + t2 ^ 2 - 3 * e ^ 2) = 0 := by
       rw [hp] at h2 hr; linear_combination hr - h2
     exact cubic_mono_aux e t2 r hepos ht2ge hlt hd
+
+
+
+/-! ## deepening round D: which real root `calc_cubic_root` returns; the Marko–Siggia family -/
+
+/-- two distinct real roots of a depressed cubic: its discriminant is a (negated) square -/
+theorem disc_of_two_roots (p q r t : ℝ) (hr : r ^ 3 + p * r + q = 0) (ht : t ^ 3 + p * t + q = 0)
+    (hne : r ≠ t) :
+    p = -(r ^ 2 + r * t + t ^ 2) ∧ q = r * t * (r + t) ∧
+    108 * (q ^ 2 / 4 + p ^ 3 / 27) = -((r - t) ^ 2 * (2 * r + t) ^ 2 * (2 * t + r) ^ 2) := by
+  have h1 : (r - t) * (r ^ 2 + r * t + t ^ 2 + p) = 0 := by linear_combination hr - ht
+  have hp : p = -(r ^ 2 + r * t + t ^ 2) := by
+    rcases mul_eq_zero.mp h1 with h | h
+    · exact absurd (sub_eq_zero.mp h) hne
+    · linarith
+  have hq : q = r * t * (r + t) := by rw [hp] at hr; linear_combination hr
+  refine ⟨hp, hq, ?_⟩
+  rw [hp, hq]; ring
+
+/-- Cardano's value in the regime the code uses it (`det ≥ 0`): any OTHER real root `r` of the
+    depressed cubic is a double root, and the cubic is `(t - r)² (t - y)`. -/
+theorem cardano_other_root_double (p q r : ℝ) (hdet : 0 ≤ disc p q)
+    (hr : r ^ 3 + p * r + q = 0) (hne : r ≠ cardano q (disc p q)) :
+    disc p q = 0 ∧ ∀ t : ℝ, t ^ 3 + p * t + q = (t - r) ^ 2 * (t - cardano q (disc p q)) := by
+  have hy := cardano_is_root p q (by rwa [disc_real] at hdet)
+  have hyd : cardano q (disc p q) =
+      Real.cbrt (-q / 2 + √(q ^ 2 / 4 + p ^ 3 / 27)) + Real.cbrt (-q / 2 - √(q ^ 2 / 4 + p ^ 3 / 27)) := by
+    rw [cardano_real, disc_real]
+  simp only at hy
+  rw [← hyd] at hy
+  set y := cardano q (disc p q) with hydef
+  obtain ⟨hp, hq, hD⟩ := disc_of_two_roots p q r y hr hy hne
+  rw [disc_real] at hdet
+  have hprod : (r - y) ^ 2 * (2 * r + y) ^ 2 * (2 * y + r) ^ 2 = 0 := by
+    have : 0 ≤ (r - y) ^ 2 * (2 * r + y) ^ 2 * (2 * y + r) ^ 2 := by positivity
+    linarith
+  have hd0 : q ^ 2 / 4 + p ^ 3 / 27 = 0 := by linarith
+  refine ⟨by rw [disc_real]; exact hd0, ?_⟩
+  have hry : r - y ≠ 0 := sub_ne_zero.mpr hne
+  have hcase : 2 * r + y = 0 ∨ 2 * y + r = 0 := by
+    rcases mul_eq_zero.mp hprod with h | h
+    · rcases mul_eq_zero.mp h with h' | h'
+      · exact absurd (pow_eq_zero_iff (by norm_num) |>.mp h') hry
+      · exact Or.inl (pow_eq_zero_iff (by norm_num) |>.mp h')
+    · exact Or.inr (pow_eq_zero_iff (by norm_num) |>.mp h)
+  rcases hcase with h | h
+  · -- r is the double root, y = -2r
+    have hy2 : y = -2 * r := by linarith
+    intro t
+    rw [hp, hq, hy2]; ring
+  · -- y would be the double root: Cardano's value at det = 0 is the SIMPLE root, so y = 0 = r
+    exfalso
+    have hr2 : r = -2 * y := by linarith
+    have hq' : q = 2 * y ^ 3 := by rw [hq, hr2]; ring
+    have hc : Real.cbrt (-q / 2) = -y := by
+      apply cube_inj
+      rw [cbrt_pow3, hq']; ring
+    have : y = -y + -y := by
+      conv_lhs => rw [hyd, hd0, Real.sqrt_zero, add_zero, sub_zero, hc]
+    have hy0 : y = 0 := by linarith
+    apply hne
+    rw [hr2, hy0]; ring
+
+
+/-- the same for `calc_cubic_root` on a general cubic: in the Cardano regime a real root other than
+    the returned value is a double root -/
+theorem calcCubicRoot_other_root_double (a b c R : ℝ) (k : ℕ)
+    (hdet : 0 ≤ disc (depP a b) (depQ a b c))
+    (hR : R ^ 3 + a * R ^ 2 + b * R + c = 0) (hne : R ≠ calcCubicRoot a b c k) :
+    disc (depP a b) (depQ a b c) = 0 ∧
+    ∀ x : ℝ, x ^ 3 + a * x ^ 2 + b * x + c = (x - R) ^ 2 * (x - calcCubicRoot a b c k) := by
+  have hY : calcCubicRoot a b c k = cardano (depQ a b c) (disc (depP a b) (depQ a b c)) - a / 3 := by
+    rw [calcCubicRoot_real, depressedRoot_real, if_pos hdet]
+  have hr' : (R + a / 3) ^ 3 + depP a b * (R + a / 3) + depQ a b c = 0 := by
+    rw [depP_real, depQ_real]; linear_combination hR
+  have hne' : R + a / 3 ≠ cardano (depQ a b c) (disc (depP a b) (depQ a b c)) := by
+    intro h; apply hne; rw [hY, ← h]; ring
+  obtain ⟨hd0, key⟩ := cardano_other_root_double (depP a b) (depQ a b c) (R + a / 3) hdet hr' hne'
+  refine ⟨hd0, ?_⟩
+  intro x
+  have := key (x + a / 3)
+  rw [hY]
+  generalize cardano (depQ a b c) (disc (depP a b) (depQ a b c)) = Yc at this ⊢
+  rw [depP_real, depQ_real] at this
+  linear_combination this
+
+/-! ### Marko–Siggia: the selected root is the physical one -/
+
+theorem msDistanceCoeffs_real (F Lp Lc kT : ℝ) :
+    msDistanceCoeffs F Lp Lc kT =
+      (-Lc * (F * Lp / kT + 9 / 4), Lc ^ 2 * (2 * F * Lp / kT + 3 / 2), -F * Lc ^ 3 * Lp / kT) := by
+  simp only [msDistanceCoeffs]
+  refine Prod.ext ?_ (Prod.ext ?_ ?_)
+  · show -Lc * (F * Lp / kT + (2.25 : ℝ)) = _
+    norm_num
+  · show (Lc * Lc) * ((2.0 : ℝ) * F * Lp / kT + 1.5) = _
+    have e1 : (2.0 : ℝ) = 2 := by norm_num
+    have e2 : (1.5 : ℝ) = 3 / 2 := by norm_num
+    rw [e1, e2]; ring
+  · show -F * (Lc * Lc * Lc) * Lp / kT = _
+    ring
+
+/-- the Marko–Siggia cubic `P(x) = x³ + a x² + b x + c` with the code's coefficients -/
+noncomputable def msPoly (F Lp Lc kT x : ℝ) : ℝ :=
+  x ^ 3 + (msDistanceCoeffs F Lp Lc kT).1 * x ^ 2 + (msDistanceCoeffs F Lp Lc kT).2.1 * x
+    + (msDistanceCoeffs F Lp Lc kT).2.2
+
+theorem msPoly_real (F Lp Lc kT x : ℝ) :
+    msPoly F Lp Lc kT x = x ^ 3 - Lc * (F * Lp / kT + 9 / 4) * x ^ 2
+      + Lc ^ 2 * (2 * F * Lp / kT + 3 / 2) * x - F * Lc ^ 3 * Lp / kT := by
+  unfold msPoly; rw [msDistanceCoeffs_real]; ring
+
+/-- no root at or below zero: every term is `≤ 0` there and the constant one is negative -/
+theorem msPoly_neg_of_nonpos (F Lp Lc kT x : ℝ) (hF : 0 < F) (hLp : 0 < Lp) (hLc : 0 < Lc)
+    (hkT : 0 < kT) (hx : x ≤ 0) : msPoly F Lp Lc kT x < 0 := by
+  rw [msPoly_real]
+  have hphi : 0 < F * Lp / kT := by positivity
+  have h1 : x ^ 3 ≤ 0 := by
+    have : x ^ 3 = x * x ^ 2 := by ring
+    rw [this]; exact mul_nonpos_of_nonpos_of_nonneg hx (sq_nonneg x)
+  have h2 : 0 ≤ Lc * (F * Lp / kT + 9 / 4) * x ^ 2 := by positivity
+  have h3 : Lc ^ 2 * (2 * F * Lp / kT + 3 / 2) * x ≤ 0 := by
+    apply mul_nonpos_of_nonneg_of_nonpos _ hx
+    have : 0 < 2 * F * Lp / kT := by positivity
+    positivity
+  have h4 : 0 < F * Lc ^ 3 * Lp / kT := by positivity
+  linarith
+
+theorem msPoly_at_Lc (F Lp Lc kT : ℝ) (hkT : 0 < kT) : msPoly F Lp Lc kT Lc = Lc ^ 3 / 4 := by
+  rw [msPoly_real]; field_simp; ring
+
+/-- existence of the physical root (intermediate value theorem on `[0, Lc]`) -/
+theorem msPoly_exists_root (F Lp Lc kT : ℝ) (hF : 0 < F) (hLp : 0 < Lp) (hLc : 0 < Lc)
+    (hkT : 0 < kT) : ∃ r, 0 < r ∧ r < Lc ∧ msPoly F Lp Lc kT r = 0 := by
+  have hcont : ContinuousOn (msPoly F Lp Lc kT) (Set.Icc 0 Lc) := by
+    unfold msPoly; fun_prop
+  have h0 : msPoly F Lp Lc kT 0 < 0 := msPoly_neg_of_nonpos F Lp Lc kT 0 hF hLp hLc hkT le_rfl
+  have h1 : 0 < msPoly F Lp Lc kT Lc := by rw [msPoly_at_Lc F Lp Lc kT hkT]; positivity
+  obtain ⟨r, hr, hr0⟩ := intermediate_value_Icc hLc.le hcont ⟨h0.le, h1.le⟩
+  refine ⟨r, ?_, ?_, hr0⟩
+  · rcases lt_or_eq_of_le hr.1 with h | h
+    · exact h
+    · rw [← h] at hr0; linarith
+  · rcases lt_or_eq_of_le hr.2 with h | h
+    · exact h
+    · rw [h] at hr0; linarith
+
+/-- `wlc_marko_siggia_force` is strictly increasing below the contour length -/
+theorem msForce_strictMono (d1 d2 Lp Lc kT : ℝ) (hLp : 0 < Lp) (hLc : 0 < Lc) (hkT : 0 < kT)
+    (h12 : d1 < d2) (h2 : d2 < Lc) : msForce d1 Lp Lc kT < msForce d2 Lp Lc kT := by
+  rw [msForce_real, msForce_real]
+  have hg : 0 < kT / Lp := by positivity
+  apply mul_lt_mul_of_pos_left _ hg
+  have hx : d1 / Lc < d2 / Lc := div_lt_div_of_pos_right h12 hLc
+  have hx2 : d2 / Lc < 1 := (div_lt_one hLc).mpr h2
+  set x1 := d1 / Lc
+  set x2 := d2 / Lc
+  have hu2 : 0 < 1 - x2 := by linarith
+  have hu : 1 - x2 < 1 - x1 := by linarith
+  have hsq : (1 - x2) * (1 - x2) < (1 - x1) * (1 - x1) := by nlinarith
+  have : 1 / ((1 - x1) * (1 - x1)) < 1 / ((1 - x2) * (1 - x2)) :=
+    one_div_lt_one_div_of_lt (by positivity) hsq
+  linarith
+
+/-- **ms_selected_root** -/
+theorem ms_selected_root_aux (F Lp Lc kT : ℝ) (hF : 0 < F) (hLp : 0 < Lp) (hLc : 0 < Lc) (hkT : 0 < kT) :
+    0 < msDistance F Lp Lc kT ∧ msDistance F Lp Lc kT < Lc := by
+  obtain ⟨r, hr0, hrL, hr⟩ := msPoly_exists_root F Lp Lc kT hF hLp hLc hkT
+  set a := (msDistanceCoeffs F Lp Lc kT).1 with ha
+  set b := (msDistanceCoeffs F Lp Lc kT).2.1 with hb
+  set c := (msDistanceCoeffs F Lp Lc kT).2.2 with hc
+  have hms : msDistance F Lp Lc kT = calcCubicRoot a b c 1 := rfl
+  have hroot : msPoly F Lp Lc kT (msDistance F Lp Lc kT) = 0 := by
+    unfold msPoly; rw [hms]; exact calcCubicRoot_is_root a b c 1
+  have hpos : 0 < msDistance F Lp Lc kT := by
+    by_contra h
+    have := msPoly_neg_of_nonpos F Lp Lc kT _ hF hLp hLc hkT (not_lt.mp h)
+    linarith
+  refine ⟨hpos, ?_⟩
+  by_cases hdet : 0 ≤ disc (depP a b) (depQ a b c)
+  · -- Cardano regime: the returned value IS the root below Lc
+    by_contra hge
+    have hne : r ≠ calcCubicRoot a b c 1 := by
+      intro h; rw [← hms] at h; rw [← h] at hge; exact hge hrL
+    have hfac := (calcCubicRoot_other_root_double a b c r 1 hdet hr hne).2 Lc
+    have hL : msPoly F Lp Lc kT Lc = (Lc - r) ^ 2 * (Lc - calcCubicRoot a b c 1) := hfac
+    rw [msPoly_at_Lc F Lp Lc kT hkT, ← hms] at hL
+    have h1 : 0 < Lc ^ 3 / 4 := by positivity
+    have h2 : (Lc - r) ^ 2 * (Lc - msDistance F Lp Lc kT) ≤ 0 :=
+      mul_nonpos_of_nonneg_of_nonpos (sq_nonneg _) (by linarith [not_lt.mp hge])
+    linarith
+  · -- three real roots: the returned value is the smallest one
+    have hdet' : disc (depP a b) (depQ a b c) < 0 := not_le.mp hdet
+    have hr1 : r ^ 3 + a * r ^ 2 + b * r + c = 0 := hr
+    have hr' : (r + a / 3) ^ 3 + depP a b * (r + a / 3) + depQ a b c = 0 := by
+      rw [depP_real, depQ_real]; linear_combination hr1
+    rw [hms, calcCubicRoot_real, depressedRoot_real, if_neg hdet]
+    rw [disc_real] at hdet'
+    have := (trig_root_order_aux (depP a b) (depQ a b c) hdet' (r + a / 3) hr').1
+    linarith
+
+
+theorem emsDistanceCoeffs_real (F Lp Lc St kT : ℝ) (hSt : St ≠ 0) (hkT : kT ≠ 0) :
+    emsDistanceCoeffs F Lp Lc St kT =
+      (-Lc * (F * Lp / kT + 9 / 4) - 3 * (Lc * F / St),
+       Lc ^ 2 * (2 * F * Lp / kT + 3 / 2) - 2 * (-Lc * (F * Lp / kT + 9 / 4)) * (Lc * F / St)
+         + 3 * (Lc * F / St) ^ 2,
+       -F * Lc ^ 3 * Lp / kT - Lc ^ 2 * (2 * F * Lp / kT + 3 / 2) * (Lc * F / St)
+         + (-Lc * (F * Lp / kT + 9 / 4)) * (Lc * F / St) ^ 2 - (Lc * F / St) ^ 3) := by
+  simp only [emsDistanceCoeffs]
+  refine Prod.ext ?_ (Prod.ext ?_ ?_)
+  · show -F * Lc * Lp / kT - (3.0 : ℝ) * F * Lc / St - 2.25 * Lc = _
+    norm_num; field_simp; ring
+  · show Lc * Lc * ((2.0 : ℝ) * (F * F) * Lp * St + 3.0 * (F * F) * kT + 2.0 * F * Lp * (St * St) + 4.5 * F * St * kT
+                  + 1.5 * (St * St) * kT) / ((St * St) * kT) = _
+    norm_num; field_simp; ring
+  · show -F * (Lc * Lc * Lc) * ((F * F) * Lp * St + (F * F) * kT + (2.0 : ℝ) * F * Lp * (St * St) + 2.25 * F * St * kT
+                        + Lp * (St * St * St) + 1.5 * (St * St) * kT) / ((St * St * St) * kT) = _
+    norm_num; field_simp; ring
+
+/-- `ewlc_marko_siggia_distance` is `wlc_marko_siggia_distance` shifted by the elastic stretch `Lc·F/St` -/
+theorem emsDistance_eq_shift (F Lp Lc St kT : ℝ) (hSt : St ≠ 0) (hkT : kT ≠ 0) :
+    emsDistance F Lp Lc St kT = msDistance F Lp Lc kT + Lc * F / St := by
+  simp only [emsDistance, msDistance]
+  rw [emsDistanceCoeffs_real F Lp Lc St kT hSt hkT, msDistanceCoeffs_real]
+  simp only []
+  rw [calcCubicRoot_real, calcCubicRoot_real]
+  set a := -Lc * (F * Lp / kT + 9 / 4)
+  set b := Lc ^ 2 * (2 * F * Lp / kT + 3 / 2)
+  set c := -F * Lc ^ 3 * Lp / kT
+  set s := Lc * F / St
+  have hp : depP (a - 3 * s) (b - 2 * a * s + 3 * s ^ 2) = depP a b := by
+    rw [depP_real, depP_real]; ring
+  have hq : depQ (a - 3 * s) (b - 2 * a * s + 3 * s ^ 2) (c - b * s + a * s ^ 2 - s ^ 3) = depQ a b c := by
+    rw [depQ_real, depQ_real]; ring
+  rw [hp, hq]; ring
+
+
+/-- the cubic in the force solved by `ewlc_marko_siggia_force`, with the code's coefficients -/
+noncomputable def emsFPoly (d Lp Lc St kT F : ℝ) : ℝ :=
+  F ^ 3 + (emsForceCoeffs d Lp Lc St kT).1 * F ^ 2 + (emsForceCoeffs d Lp Lc St kT).2.1 * F
+    + (emsForceCoeffs d Lp Lc St kT).2.2
+
+/-- polynomial identity behind `ems_identity_force`, valid for EVERY `F` (also where the relation is singular) -/
+theorem emsFPoly_identity (F d Lp Lc St kT : ℝ) (hLc : Lc ≠ 0) (hSt : St ≠ 0) (hkT : kT ≠ 0)
+    (hden : Lp * St + kT ≠ 0) :
+    (1 / 4 - (1 / 4 - d / Lc + F / St + F * Lp / kT) * (1 - d / Lc + F / St) ^ 2) * (St ^ 3 * kT) =
+      -(Lp * St + kT) * emsFPoly d Lp Lc St kT F := by
+  have hden' : St * Lp + kT ≠ 0 := by rwa [mul_comm]
+  unfold emsFPoly
+  simp only [emsForceCoeffs]
+  norm_num
+  field_simp
+  ring
+
+
+/-- sign of the cubic from the sign of `¼ - G·y²` -/
+theorem emsFPoly_eq (F d Lp Lc St kT : ℝ) (hLp : 0 < Lp) (hLc : 0 < Lc) (hSt : 0 < St) (hkT : 0 < kT) :
+    emsFPoly d Lp Lc St kT F =
+      -((1 / 4 - (1 / 4 - d / Lc + F / St + F * Lp / kT) * (1 - d / Lc + F / St) ^ 2) * (St ^ 3 * kT))
+        / (Lp * St + kT) := by
+  have hden : 0 < Lp * St + kT := by positivity
+  rw [emsFPoly_identity F d Lp Lc St kT hLc.ne' hSt.ne' hkT.ne' hden.ne']
+  field_simp
+
+/-- at the singular point `F_min = (d/Lc - 1)·St` (where `1 - d/Lc + F/St = 0`) the cubic is negative -/
+theorem emsFPoly_at_min (d Lp Lc St kT : ℝ) (hLp : 0 < Lp) (hLc : 0 < Lc) (hSt : 0 < St) (hkT : 0 < kT) :
+    emsFPoly d Lp Lc St kT ((d / Lc - 1) * St) < 0 := by
+  rw [emsFPoly_eq _ d Lp Lc St kT hLp hLc hSt hkT]
+  have hy : 1 - d / Lc + (d / Lc - 1) * St / St = 0 := by field_simp; ring
+  rw [hy]
+  have hden : 0 < Lp * St + kT := by positivity
+  have : 0 < (1 / 4 - (1 / 4 - d / Lc + (d / Lc - 1) * St / St + (d / Lc - 1) * St * Lp / kT) * 0 ^ 2)
+      * (St ^ 3 * kT) := by
+    have : (0 : ℝ) ^ 2 = 0 := by norm_num
+    rw [this, mul_zero, sub_zero]; positivity
+  rw [neg_div]
+  exact neg_neg_of_pos (div_pos this hden)
+
+/-- far enough out the cubic is positive -/
+theorem emsFPoly_at_hi (d Lp Lc St kT : ℝ) (hLp : 0 < Lp) (hLc : 0 < Lc) (hSt : 0 < St) (hkT : 0 < kT) :
+    0 < emsFPoly d Lp Lc St kT ((|d / Lc| + 1) * St) := by
+  rw [emsFPoly_eq _ d Lp Lc St kT hLp hLc hSt hkT]
+  have hden : 0 < Lp * St + kT := by positivity
+  have e : (|d / Lc| + 1) * St / St = |d / Lc| + 1 := by field_simp
+  rw [e]
+  have h1 : d / Lc ≤ |d / Lc| := le_abs_self _
+  have h0 : 0 ≤ |d / Lc| := abs_nonneg _
+  have hFp : 0 ≤ (|d / Lc| + 1) * St * Lp / kT := by positivity
+  set m := |d / Lc|
+  set x := d / Lc
+  set G := 1 / 4 - x + (m + 1) + (m + 1) * St * Lp / kT with hG
+  set y := 1 - x + (m + 1) with hy
+  have hGge : 5 / 4 ≤ G := by rw [hG]; linarith
+  have hyge : 2 ≤ y := by rw [hy]; linarith
+  have hy2 : 4 ≤ y ^ 2 := by nlinarith
+  have : 1 / 4 - G * y ^ 2 < 0 := by nlinarith
+  have hneg : (1 / 4 - G * y ^ 2) * (St ^ 3 * kT) < 0 :=
+    mul_neg_of_neg_of_pos this (by positivity)
+  exact div_pos (neg_pos.mpr hneg) hden
+
+/-- existence of the physical root: above the singular point -/
+theorem emsFPoly_exists_root (d Lp Lc St kT : ℝ) (hLp : 0 < Lp) (hLc : 0 < Lc) (hSt : 0 < St) (hkT : 0 < kT) :
+    ∃ R, (d / Lc - 1) * St < R ∧ emsFPoly d Lp Lc St kT R = 0 := by
+  have hcont : ContinuousOn (emsFPoly d Lp Lc St kT) (Set.Icc ((d / Lc - 1) * St) ((|d / Lc| + 1) * St)) := by
+    unfold emsFPoly; fun_prop
+  have h0 := emsFPoly_at_min d Lp Lc St kT hLp hLc hSt hkT
+  have h1 := emsFPoly_at_hi d Lp Lc St kT hLp hLc hSt hkT
+  have hle : (d / Lc - 1) * St ≤ (|d / Lc| + 1) * St := by
+    apply mul_le_mul_of_nonneg_right _ hSt.le
+    linarith [le_abs_self (d / Lc)]
+  obtain ⟨r, hr, hr0⟩ := intermediate_value_Icc hle hcont ⟨h0.le, h1.le⟩
+  refine ⟨r, ?_, hr0⟩
+  rcases lt_or_eq_of_le hr.1 with h | h
+  · exact h
+  · rw [← h] at hr0; linarith
+
+/-- **eMS force: the selected root (index 2) lies in the relation's domain**, for every `d` -/
+theorem ems_force_selected_root_aux (d Lp Lc St kT : ℝ) (hLp : 0 < Lp) (hLc : 0 < Lc) (hSt : 0 < St)
+    (hkT : 0 < kT) : (d / Lc - 1) * St < emsForce d Lp Lc St kT := by
+  obtain ⟨R, hRmin, hR⟩ := emsFPoly_exists_root d Lp Lc St kT hLp hLc hSt hkT
+  set a := (emsForceCoeffs d Lp Lc St kT).1 with ha
+  set b := (emsForceCoeffs d Lp Lc St kT).2.1 with hb
+  set c := (emsForceCoeffs d Lp Lc St kT).2.2 with hc
+  have hems : emsForce d Lp Lc St kT = calcCubicRoot a b c 2 := rfl
+  by_cases hdet : 0 ≤ disc (depP a b) (depQ a b c)
+  · by_cases hne : R = calcCubicRoot a b c 2
+    · rw [hems, ← hne]; exact hRmin
+    · have hfac := (calcCubicRoot_other_root_double a b c R 2 hdet hR hne).2 ((d / Lc - 1) * St)
+      have hL : emsFPoly d Lp Lc St kT ((d / Lc - 1) * St)
+          = ((d / Lc - 1) * St - R) ^ 2 * ((d / Lc - 1) * St - calcCubicRoot a b c 2) := hfac
+      have hneg := emsFPoly_at_min d Lp Lc St kT hLp hLc hSt hkT
+      rw [hL, ← hems] at hneg
+      by_contra hge
+      have : 0 ≤ ((d / Lc - 1) * St - R) ^ 2 * ((d / Lc - 1) * St - emsForce d Lp Lc St kT) :=
+        mul_nonneg (sq_nonneg _) (by linarith [not_lt.mp hge])
+      linarith
+  · have hdet' : disc (depP a b) (depQ a b c) < 0 := not_le.mp hdet
+    rw [hems, calcCubicRoot_real, depressedRoot_real, if_neg hdet]
+    have hR' : R ^ 3 + a * R ^ 2 + b * R + c = 0 := hR
+    have hr' : (R + a / 3) ^ 3 + depP a b * (R + a / 3) + depQ a b c = 0 := by
+      rw [depP_real, depQ_real]; linear_combination hR'
+    rw [disc_real] at hdet'
+    have := (trig_root_order_aux (depP a b) (depQ a b c) hdet' (R + a / 3) hr').2
+    linarith
+
+
+
+/-- between the origin and the contour length the Marko–Siggia force is positive -/
+theorem msForce_pos (d Lp Lc kT : ℝ) (hLp : 0 < Lp) (hLc : 0 < Lc) (hkT : 0 < kT) (h0 : 0 < d)
+    (h1 : d < Lc) : 0 < msForce d Lp Lc kT := by
+  rw [msForce_real]
+  have hg : 0 < kT / Lp := by positivity
+  apply mul_pos hg
+  have hx0 : 0 < d / Lc := by positivity
+  have hx1 : d / Lc < 1 := (div_lt_one hLc).mpr h1
+  set x := d / Lc
+  have hu : 0 < 1 - x := by linarith
+  have hsq : (1 - x) * (1 - x) < 1 := by nlinarith
+  have : 1 < 1 / ((1 - x) * (1 - x)) := by
+    rw [lt_div_iff₀ (by positivity)]; linarith
+  linarith
+
+/-- on its domain the residual of the extensible Marko–Siggia relation is strictly decreasing in the force -/
+theorem emsResidual_strictAnti_F (F1 F2 d Lp Lc St kT : ℝ) (hLp : 0 < Lp) (hSt : 0 < St) (hkT : 0 < kT)
+    (h12 : F1 < F2) (hy : 0 < 1 - d / Lc + F1 / St) :
+    emsResidual F2 d Lp Lc St kT < emsResidual F1 d Lp Lc St kT := by
+  rw [emsResidual_real, emsResidual_real]
+  have hz : F1 / St < F2 / St := div_lt_div_of_pos_right h12 hSt
+  have hk : F1 * Lp / kT < F2 * Lp / kT :=
+    div_lt_div_of_pos_right (mul_lt_mul_of_pos_right h12 hLp) hkT
+  set y1 := 1 - d / Lc + F1 / St with hy1
+  set y2 := 1 - d / Lc + F2 / St with hy2
+  have hyy : y1 < y2 := by rw [hy1, hy2]; linarith
+  have hsq : y1 * y1 < y2 * y2 := by nlinarith
+  have : 1 / (y2 * y2) < 1 / (y1 * y1) := one_div_lt_one_div_of_lt (by positivity) hsq
+  linarith
+
+/-- … and strictly increasing in the distance -/
+theorem emsResidual_strictMono_d (F d1 d2 Lp Lc St kT : ℝ) (hLc : 0 < Lc)
+    (h12 : d1 < d2) (hy : 0 < 1 - d2 / Lc + F / St) :
+    emsResidual F d1 Lp Lc St kT < emsResidual F d2 Lp Lc St kT := by
+  rw [emsResidual_real, emsResidual_real]
+  have hz : d1 / Lc < d2 / Lc := div_lt_div_of_pos_right h12 hLc
+  set y1 := 1 - d1 / Lc + F / St with hy1
+  set y2 := 1 - d2 / Lc + F / St with hy2
+  have hyy : y2 < y1 := by rw [hy1, hy2]; linarith
+  have hsq : y2 * y2 < y1 * y1 := by nlinarith
+  have : 1 / (y1 * y1) < 1 / (y2 * y2) := one_div_lt_one_div_of_lt (by positivity) hsq
+  linarith
+
+/-- a solution of the relation at a positive distance has a positive force -/
+theorem ems_force_pos_of_solves (F d Lp Lc St kT : ℝ) (hLp : 0 < Lp) (hLc : 0 < Lc) (hSt : 0 < St)
+    (hkT : 0 < kT) (hd : 0 < d) (hy : 0 < 1 - d / Lc + F / St) (h : emsResidual F d Lp Lc St kT = 0) :
+    0 < F := by
+  by_contra hF
+  have hF' : F ≤ 0 := not_lt.mp hF
+  rw [emsResidual_real] at h
+  have hx0 : 0 < d / Lc := by positivity
+  have hz : F / St ≤ 0 := div_nonpos_of_nonpos_of_nonneg hF' hSt.le
+  have hk : F * Lp / kT ≤ 0 :=
+    div_nonpos_of_nonpos_of_nonneg (mul_nonpos_of_nonpos_of_nonneg hF' hLp.le) hkT.le
+  set y := 1 - d / Lc + F / St with hyd
+  have hy1 : y < 1 := by rw [hyd]; linarith
+  have hsq : y * y < 1 := by nlinarith
+  have : 1 < 1 / (y * y) := by
+    rw [lt_div_iff₀ (by positivity)]; linarith
+  linarith
+
+
+
+/-! ### the masked array form of `calc_cubic_root` -/
+
+section vec
+variable {β γ δ ε : Type}
+
+theorem zipWith_map_map (f : γ → δ → ε) (g : β → γ) (h : β → δ) (l : List β) :
+    List.zipWith f (l.map g) (l.map h) = l.map fun x => f (g x) (h x) := by
+  induction l with
+  | nil => rfl
+  | cons x xs ih => simp only [List.map_cons, List.zipWith_cons_cons, ih]
+
+theorem zipWith3'_map {ζ : Type} (f : γ → δ → ε → ζ) (g : β → γ) (h : β → δ) (i : β → ε) (l : List β) :
+    zipWith3' f (l.map g) (l.map h) (l.map i) = l.map fun x => f (g x) (h x) (i x) := by
+  induction l with
+  | nil => rfl
+  | cons x xs ih => simp only [List.map_cons, zipWith3', ih]
+
+/-- reading two arrays through the same mask and combining = combining and reading through the mask -/
+theorem zipWith_gather (c : γ → δ → ε) (m : β → Bool) (f1 : β → γ) (f2 : β → δ) (l : List β) :
+    List.zipWith c (gather (l.map m) (l.map f1)) (gather (l.map m) (l.map f2))
+      = gather (l.map m) (l.map fun x => c (f1 x) (f2 x)) := by
+  induction l with
+  | nil => rfl
+  | cons x xs ih =>
+    simp only [List.map_cons]
+    cases hm : m x
+    · simp only [gather, ih]
+    · simp only [gather, List.zipWith_cons_cons, ih]
+
+/-- NumPy's masked write of values computed from the masked read: position by position -/
+theorem scatter_gather (m : β → Bool) (f h : β → γ) (l : List β) :
+    scatter (l.map m) (gather (l.map m) (l.map f)) (l.map h)
+      = l.map fun x => if m x then f x else h x := by
+  induction l with
+  | nil => rfl
+  | cons x xs ih =>
+    simp only [List.map_cons]
+    cases hm : m x
+    · simp only [gather, scatter, ih]; simp
+    · simp only [gather, scatter, ih]; simp
+
+end vec
+
+section
+variable {α : Type} [RealLike α] [Ops α]
+
+/-- the masked array algorithm computes, at every position, the scalar `calcCubicRoot` — for any number type
+    whose `selGe0` is the plain branch on `det ≥ 0` -/
+theorem calcCubicRootVec_pointwise
+    (hsel : ∀ det A B : α, Ops.selGe0 det A B = if RealLike.le (0.0 : α) det then A else B)
+    (l : List (α × α × α)) (k : Nat) :
+    calcCubicRootVec (l.map (·.1)) (l.map (·.2.1)) (l.map (·.2.2)) k
+      = l.map fun t => calcCubicRoot t.1 t.2.1 t.2.2 k := by
+  unfold calcCubicRootVec
+  simp only [zipWith_map_map, zipWith3'_map, List.map_map, Function.comp_def]
+  rw [zipWith_gather cardano, zipWith_gather (fun p q => trigRoot p q k)]
+  rw [scatter_gather (fun t : α × α × α => RealLike.le (0.0 : α) (disc (depP t.1 t.2.1) (depQ t.1 t.2.1 t.2.2)))]
+  rw [scatter_gather (fun t : α × α × α => !RealLike.le (0.0 : α) (disc (depP t.1 t.2.1) (depQ t.1 t.2.1 t.2.2)))]
+  rw [zipWith_map_map]
+  apply List.map_congr_left
+  intro t _
+  simp only [calcCubicRoot, depressedRoot, hsel]
+  cases RealLike.le (0.0 : α) (disc (depP t.1 t.2.1) (depQ t.1 t.2.1 t.2.2)) <;> simp
+
+end
+
+
+/-! ### eFJC / tWLC: the guards and masks around the published closed forms -/
+
+theorem twlcG_real (f g0 g1 Fc : ℝ) : twlcG f g0 g1 Fc = g0 + g1 * max f Fc := by
+  simp only [twlcG, RealLike.lt, RealLike.le]
+  by_cases h : f < Fc
+  · simp [h, max_eq_right h.le]
+  · have h' : Fc ≤ f := not_lt.mp h
+    simp [h, h']
+
+theorem twlcDistance_real (f Lp Lc St C g0 g1 Fc kT : ℝ) :
+    twlcDistance f Lp Lc St C g0 g1 Fc kT =
+      Lc * (1 - 1 / 2 * √(kT / (f * Lp)) + C / (-(g0 + g1 * max f Fc) ^ 2 + St * C) * f) := by
+  simp only [twlcDistance, twlcG_real, RealLike.sqrt]
+  have e1 : (1.0 : ℝ) = 1 := by norm_num
+  have e2 : (2.0 : ℝ) = 2 := by norm_num
+  rw [e1, e2]
+  ring
+
+theorem coth_real (x : ℝ) : coth x = if |x| < 500 then Real.cosh x / Real.sinh x else 1 := by
+  simp only [coth, RealLike.lt, RealLike.abs, Ops.cosh, Ops.sinh]
+  norm_num
+
+/-- beyond the guard the hyperbolic cotangent differs from 1 by less than `2/(e¹⁰⁰⁰ - 1)` -/
+theorem coth_guard_error_aux (x : ℝ) (hx : 0 < x) :
+    |coth x - Real.cosh x / Real.sinh x| ≤ 2 / (Real.exp 1000 - 1) := by
+  rw [coth_real]
+  have hE : 1 < Real.exp 1000 := by
+    have := Real.add_one_lt_exp (show (1000 : ℝ) ≠ 0 by norm_num)
+    linarith
+  by_cases h : |x| < 500
+  · rw [if_pos h, sub_self, abs_zero]
+    have : 0 < Real.exp 1000 - 1 := by linarith
+    positivity
+  · rw [if_neg h]
+    have hx5 : 500 ≤ x := by
+      rw [abs_of_pos hx] at h; exact not_lt.mp h
+    have hs : 0 < Real.sinh x := Real.sinh_pos_iff.mpr hx
+    have hdiff : 1 - Real.cosh x / Real.sinh x = -(Real.exp (-x) / Real.sinh x) := by
+      have := Real.cosh_sub_sinh x
+      field_simp
+      linarith
+    rw [hdiff, abs_neg, abs_of_pos (div_pos (Real.exp_pos _) hs)]
+    -- exp(-x)/sinh x = 2/(exp(2x) - 1)
+    have hsinh : Real.sinh x = (Real.exp x - Real.exp (-x)) / 2 := Real.sinh_eq x
+    have hmul : Real.exp x * Real.exp (-x) = 1 := by rw [← Real.exp_add]; simp
+    have h2x : Real.exp 1000 ≤ Real.exp x * Real.exp x := by
+      rw [← Real.exp_add]; apply Real.exp_le_exp.mpr; linarith
+    have hen : 0 < Real.exp (-x) := Real.exp_pos _
+    have hep : 0 < Real.exp x := Real.exp_pos _
+    have hden : 0 < Real.exp 1000 - 1 := by linarith
+    rw [div_le_div_iff₀ hs hden, hsinh]
+    -- exp(-x) (E - 1) ≤ 2 (exp x - exp(-x))/2 = exp x - exp(-x)
+    have : Real.exp (-x) * Real.exp 1000 ≤ Real.exp x := by
+      calc Real.exp (-x) * Real.exp 1000 ≤ Real.exp (-x) * (Real.exp x * Real.exp x) :=
+            mul_le_mul_of_nonneg_left h2x hen.le
+        _ = (Real.exp x * Real.exp (-x)) * Real.exp x := by ring
+        _ = Real.exp x := by rw [hmul, one_mul]
+    nlinarith
+
+
+
+/-! ### monotonicity of the explicit eFJC / tWLC models (where it holds) -/
+
+/-- `x·cosh x - sinh x > 0` for `x > 0` -/
+theorem x_cosh_sub_sinh_pos (x : ℝ) (hx : 0 < x) : 0 < x * Real.cosh x - Real.sinh x := by
+  have hmono : StrictMonoOn (fun t : ℝ => t * Real.cosh t - Real.sinh t) (Set.Ici 0) := by
+    apply strictMonoOn_of_deriv_pos (convex_Ici 0)
+    · fun_prop
+    · intro t ht
+      rw [interior_Ici] at ht
+      have hd : HasDerivAt (fun t : ℝ => t * Real.cosh t - Real.sinh t) (t * Real.sinh t) t := by
+        exact (((hasDerivAt_id' t).mul (Real.hasDerivAt_cosh t)).sub (Real.hasDerivAt_sinh t)).congr_deriv
+          (by ring)
+      rw [hd.deriv]
+      exact mul_pos ht (Real.sinh_pos_iff.mpr ht)
+  have := hmono (Set.mem_Ici.mpr le_rfl) (Set.mem_Ici.mpr hx.le) hx
+  simpa using this
+
+/-- the Langevin function `coth x - 1/x` is positive and strictly increasing on `x > 0` -/
+theorem langevin_pos (x : ℝ) (hx : 0 < x) : 0 < Real.cosh x / Real.sinh x - 1 / x := by
+  have hs : 0 < Real.sinh x := Real.sinh_pos_iff.mpr hx
+  have := x_cosh_sub_sinh_pos x hx
+  have e : Real.cosh x / Real.sinh x - 1 / x = (x * Real.cosh x - Real.sinh x) / (Real.sinh x * x) := by
+    field_simp
+  rw [e]; positivity
+
+theorem langevin_strictMono (x y : ℝ) (hx : 0 < x) (hxy : x < y) :
+    Real.cosh x / Real.sinh x - 1 / x < Real.cosh y / Real.sinh y - 1 / y := by
+  have hmono : StrictMonoOn (fun t : ℝ => Real.cosh t / Real.sinh t - 1 / t) (Set.Ioi 0) := by
+    apply strictMonoOn_of_deriv_pos (convex_Ioi 0)
+    · apply ContinuousOn.sub
+      · apply ContinuousOn.div Real.continuous_cosh.continuousOn Real.continuous_sinh.continuousOn
+        intro t ht; exact (Real.sinh_pos_iff.mpr ht).ne'
+      · apply ContinuousOn.div continuousOn_const continuousOn_id
+        intro t ht; exact (ne_of_gt ht)
+    · intro t ht
+      rw [interior_Ioi] at ht
+      have ht0 : t ≠ 0 := ne_of_gt ht
+      have hs : 0 < Real.sinh t := Real.sinh_pos_iff.mpr ht
+      have hd : HasDerivAt (fun t : ℝ => Real.cosh t / Real.sinh t - 1 / t)
+          ((Real.sinh t * Real.sinh t - Real.cosh t * Real.cosh t) / Real.sinh t ^ 2 - (-(1 / t ^ 2))) t := by
+        have h1 := (Real.hasDerivAt_cosh t).div (Real.hasDerivAt_sinh t) hs.ne'
+        have h2 : HasDerivAt (fun t : ℝ => 1 / t) (-(1 / t ^ 2)) t := by
+          have := hasDerivAt_inv ht0
+          simpa [one_div] using this
+        exact h1.sub h2
+      rw [hd.deriv]
+      have hcs : Real.cosh t ^ 2 - Real.sinh t ^ 2 = 1 := Real.cosh_sq_sub_sinh_sq t
+      have hlt : t < Real.sinh t := Real.self_lt_sinh_iff.mpr ht
+      have e : (Real.sinh t * Real.sinh t - Real.cosh t * Real.cosh t) / Real.sinh t ^ 2 - (-(1 / t ^ 2))
+          = (Real.sinh t ^ 2 - t ^ 2) / (Real.sinh t ^ 2 * t ^ 2) := by
+        field_simp
+        nlinarith
+      rw [e]
+      have ht' : 0 < t := ht
+      have hprod : 0 < (Real.sinh t - t) * (Real.sinh t + t) := mul_pos (by linarith) (by linarith)
+      apply div_pos
+      · nlinarith
+      · positivity
+  exact hmono (Set.mem_Ioi.mpr hx) (Set.mem_Ioi.mpr (lt_trans hx hxy)) hxy
+
+
+/-- `efjc_distance` below the overflow guard (`2·F·Lp/kT < 500`) is the product of the Langevin function and the
+    elastic factor, both positive and strictly increasing: strictly increasing in the force. -/
+theorem efjc_distance_strictMono_aux (F1 F2 Lp Lc St kT : ℝ) (h1 : 0 < F1) (h12 : F1 < F2) (hLp : 0 < Lp)
+    (hLc : 0 < Lc) (hSt : 0 < St) (hkT : 0 < kT) (hg : 2 * F2 * Lp / kT < 500) :
+    efjcDistance F1 Lp Lc St kT < efjcDistance F2 Lp Lc St kT := by
+  have h2 : 0 < F2 := lt_trans h1 h12
+  have hform : ∀ F : ℝ, 0 < F → 2 * F * Lp / kT < 500 → efjcDistance F Lp Lc St kT
+      = Lc * (Real.cosh (2 * F * Lp / kT) / Real.sinh (2 * F * Lp / kT) - 1 / (2 * F * Lp / kT)) * (1 + F / St) := by
+    intro F hF hgF
+    have ht : 0 < 2 * F * Lp / kT := by positivity
+    simp only [efjcDistance]
+    have e1 : (1.0 : ℝ) = 1 := by norm_num
+    have e2 : (2.0 : ℝ) = 2 := by norm_num
+    rw [e1, e2, coth_real, if_pos (by rw [abs_of_pos ht]; exact hgF)]
+    congr 2
+    field_simp
+  have ht1 : 0 < 2 * F1 * Lp / kT := by positivity
+  have ht12 : 2 * F1 * Lp / kT < 2 * F2 * Lp / kT := by
+    apply div_lt_div_of_pos_right _ hkT
+    nlinarith
+  rw [hform F1 h1 (lt_trans ht12 hg), hform F2 h2 hg]
+  have hL1 := langevin_pos _ ht1
+  have hL := langevin_strictMono _ _ ht1 ht12
+  have he : 1 + F1 / St < 1 + F2 / St := by
+    have := div_lt_div_of_pos_right h12 hSt; linarith
+  have he1 : 0 < 1 + F1 / St := by positivity
+  have := mul_lt_mul'' hL he hL1.le he1.le
+  have key := mul_lt_mul_of_pos_left this hLc
+  have ea : ∀ a b : ℝ, Lc * a * b = Lc * (a * b) := fun a b => mul_assoc _ _ _
+  rw [ea, ea]
+  exact key
+
+
+/-- tWLC below the critical force (constant coupling `g0 + g1·Fc`) inside the validity region
+    (`(g0 + g1·Fc)² < St·C`): strictly increasing in the force. -/
+theorem twlc_distance_strictMono_below_Fc_aux (F1 F2 Lp Lc St C g0 g1 Fc kT : ℝ) (h1 : 0 < F1) (h12 : F1 < F2)
+    (h2 : F2 ≤ Fc) (hLp : 0 < Lp) (hLc : 0 < Lc) (hkT : 0 < kT) (hC : 0 < C)
+    (hval : (g0 + g1 * Fc) ^ 2 < St * C) :
+    twlcDistance F1 Lp Lc St C g0 g1 Fc kT < twlcDistance F2 Lp Lc St C g0 g1 Fc kT := by
+  rw [twlcDistance_real, twlcDistance_real, max_eq_right (le_trans h12.le h2), max_eq_right h2]
+  have hF2 : 0 < F2 := lt_trans h1 h12
+  have hlt : kT / (F2 * Lp) < kT / (F1 * Lp) := by
+    apply div_lt_div_of_pos_left hkT (by positivity)
+    exact mul_lt_mul_of_pos_right h12 hLp
+  have hs : √(kT / (F2 * Lp)) < √(kT / (F1 * Lp)) := Real.sqrt_lt_sqrt (by positivity) hlt
+  have hden : 0 < -(g0 + g1 * Fc) ^ 2 + St * C := by linarith
+  have hk : 0 < C / (-(g0 + g1 * Fc) ^ 2 + St * C) := div_pos hC hden
+  have : C / (-(g0 + g1 * Fc) ^ 2 + St * C) * F1 < C / (-(g0 + g1 * Fc) ^ 2 + St * C) * F2 :=
+    mul_lt_mul_of_pos_left h12 hk
+  apply mul_lt_mul_of_pos_left _ hLc
+  linarith
 
 
 end Verif.C12
